@@ -296,6 +296,18 @@ def _host_port(ctx):
                  oracle2, hooks=HOOKS)
 
 
+def _result_class(world):
+    """The class urlsplit() hands out (whatever its private name is)."""
+    f = world.func(MOD, 'urlsplit')
+    outs, _i = extract(world, lambda i: i.call(f, [K('http://h/p?a=1')]),
+                       setup=_setup({}))
+    for o in outs:
+        c = getattr(o.value, 'cls', None)
+        if o.kind == 'return' and c is not None:
+            return c
+    raise AnalysisError('anchor vanished: the class of urlsplit() results')
+
+
 URLS = ('http://host/path#frag', 'http://h/p?q=1#f', 'http://h/p#f?x',
         'svn+ssh://u:pw@h:22/p;x?a=1&a=2#f', '//[::1]:80/x', 'p?x#y',
         'http://h', '', 'mailto:a@b', 'http://h/a%23b?c#d#e',
@@ -349,7 +361,7 @@ def _urlsplit(ctx):
                   '%s, stdlib %s' % bad),
               case=None if bad is None else {'url': bad[0],
                                              'allow_fragments': bad[2]})
-    cls = world.cls(MOD, '_ModifiedSplitResult')
+    cls = _result_class(world)
     for o in outcomes:
         if o.kind == 'return':
             rep.check('R15.3', 'urlsplit:result-type',
@@ -360,7 +372,7 @@ def _urlsplit(ctx):
 
 def _params(ctx):
     rep, world = ctx.report, ctx.world
-    cls = world.cls(MOD, '_ModifiedSplitResult')
+    cls = _result_class(world)
     rep.analysed('netutils._ModifiedSplitResult.params')
     queries = ('', 'a=1', 'a=1&b=2', 'a=1&b=2&a=3', 'a=1&a=2&a=3', 'a=&b',
                'x=1&y=2&x=3&y=4&x=5', 'a=1&a=2&b=3&a=4', 'a=2&a=1',
